@@ -166,6 +166,26 @@ pub fn build<Data: GarnishData>(parse_root: usize, parse_tree: Vec<ParseNode>, d
         });
     }
 
+    // the tree is indexed directly below, make sure every link exists first
+    if parse_root >= parse_tree.len() {
+        Err(CompilerError::new_message(format!("No parse node at root index {}", parse_root)))?;
+    }
+    for (index, node) in parse_tree.iter().enumerate() {
+        for child in [node.get_left(), node.get_right()] {
+            match child {
+                Some(child) if child >= parse_tree.len() => Err(CompilerError::new_message(format!(
+                    "Parse node {} refers to non-existent node {}",
+                    index, child
+                )))?,
+                _ => {}
+            }
+        }
+    }
+
+    // safety net, a well formed tree visits each node a small constant number of times
+    let max_visits = parse_tree.len() * 8 + 16;
+    let mut visits = 0;
+
     let mut nodes: Vec<Option<BuildNode<Data>>> = Vec::with_capacity(parse_tree.len());
     for _ in 0..parse_tree.len() {
         nodes.push(None);
@@ -214,6 +234,11 @@ pub fn build<Data: GarnishData>(parse_root: usize, parse_tree: Vec<ParseNode>, d
                 Some(node) => node,
                 None => Err(CompilerError::new_message(format!("No parse node at index {}", node_index)))?,
             };
+
+            visits += 1;
+            if visits > max_visits {
+                Err(CompilerError::new_message(format!("Parse nodes do not form a tree, max iterations reached at node {}", node_index)))?;
+            }
 
             handle_parse_node(
                 data,
